@@ -27,7 +27,7 @@ KEYS = ["k0", "k1", "k2"]
 FIELDS = ["f", "g"]
 STRS = ["a", "b", "{\"id\":7,\"n\":\"x\"}", "", "café", "7"]
 INTS = [0, 1, -3, 7, 41]
-LISTV = ["a", "b", "a", "7", 7, ""]
+LISTV = ["a", "b", "a", "7", 7, "", "a&b<c>"]
 TTLS = [0, 0, SHORT, MID, LONG]
 FLAGS = ["v_cas_zero_guard", "v_cas_ttl0_never", "v_setexp_checks_expiry", "v_setexp_ttl0_never", "v_setnx_after",
          "v_getexp_never0"]
@@ -165,7 +165,9 @@ def gen_focus(rng, mode="mem"):
     return {"mode": "redis", "ops": ops, "scale": 100, "tol": 10 ** 12}
 
 
-RSTR = ["a", "b", "{\"id\":7,\"n\":\"x\"}", "café", "x y"]
+JSONISH = ["a&b", "<x>", "https://h/p?a=1&b=<2>", "q\"uote", "back\\slash", "line\u2028sep", "tab\tnl\n", "{\"u\":\"a&b\"}", "\u00e9\u4e2d",
+           "\ufffd", "nul\u0000in"]
+RSTR = ["a", "b", "{\"id\":7,\"n\":\"x\"}", "a&b<c>", "x y", "café"]
 
 
 def gen_redis(rng):
@@ -322,6 +324,17 @@ def collection_boundaries():
         for se in hseconds:
             add(pr + se + hreads + [{"op": "gethash", "k": "h0", "f": ""}, {"op": "sethash", "k": "h0", "f": "f", "v": "z"}] + hreads
                 + [T] + hreads + [T, T] + hreads)
+    # members / values whose JSON encoding is not the plain text: a list member written by one operation must be found by
+    # another (SetList then RemoveFromList, AppendToList then RemoveFromList), on Redis as in memory
+    for mmb in JSONISH:
+        add([{"op": "setlist", "k": "l0", "v": [mmb, "z", mmb], "ttl": 0}] + lreads + [{"op": "remove", "k": "l0", "v": mmb}] + lreads
+            + [{"op": "append", "k": "l0", "v": mmb}] + lreads + [{"op": "remove", "k": "l0", "v": mmb}] + lreads
+            + [{"op": "remove", "k": "l0", "v": "z"}, {"op": "append", "k": "l0", "v": mmb}, {"op": "setlist", "k": "l0", "v": [mmb], "ttl": 0},
+               {"op": "remove", "k": "l0", "v": mmb}] + lreads)
+        add([{"op": "sethash", "k": "h0", "f": mmb, "v": mmb}, {"op": "gethash", "k": "h0", "f": mmb}, {"op": "getallhash", "k": "h0"},
+             {"op": "delhash", "k": "h0", "f": mmb}, {"op": "getallhash", "k": "h0"}, {"op": "exists", "k": "h0"}])
+        add([{"op": "set", "k": "s0", "v": mmb, "ttl": 0}, {"op": "get", "k": "s0"}, {"op": "cas", "k": "s0", "old": mmb, "v": mmb + mmb, "ttl": 0},
+             {"op": "get", "k": "s0"}, {"op": "setnx", "k": "s1", "v": mmb, "ttl": 0}, {"op": "get", "k": "s1"}])
     creads = [{"op": "get", "k": "c0"}, {"op": "exists", "k": "c0"}]
     for pr in ([], [{"op": "incrby", "k": "c0", "n": 5}, {"op": "incrby", "k": "c0", "n": -5}],
                [{"op": "incrby", "k": "c0", "n": 5}, {"op": "setexp", "k": "c0", "ttl": SHORT}],
@@ -528,7 +541,10 @@ def torn_cases():
 def incr_cases():
     """concurrent increments of ONE existing counter on every backend (child process): returned values distinct, none lost"""
     return [{"mode": "incr", "backend": "mem", "fill": 16, "reads": 3000}, {"mode": "incr", "backend": "hybrid", "fill": 16, "reads": 3000},
-            {"mode": "incr", "backend": "redis", "fill": 8, "reads": 250}]
+            {"mode": "incr", "backend": "redis", "fill": 8, "reads": 250},
+            # RemoveFromList racing AppendToList on one large list: no completed append is lost
+            {"mode": "listrace", "backend": "mem", "fill": 4000, "reads": 400}, {"mode": "listrace", "backend": "hybrid", "fill": 4000, "reads": 400},
+            {"mode": "listrace", "backend": "redis", "fill": 300, "reads": 150}]
 
 
 def exhaustive_small(rng, depth):
@@ -757,7 +773,7 @@ def run(ctx, only_cases=None):
         cases += torn_cases()
         cases += incr_cases()
     timed = [c for c in cases if c["mode"] in ("mem", "redis", "both", "iso")]
-    conc = [c for c in cases if c["mode"] in ("conc", "sweep", "upgrade", "torn", "incr")]
+    conc = [c for c in cases if c["mode"] in ("conc", "sweep", "upgrade", "torn", "incr", "listrace")]
     env = {"VERIF_C13_PAR": "96" if thorough else "72"}
     outs = vlib.run_harness(binary, timed, timeout=1500, env=env) if timed else []
     try:
@@ -817,7 +833,7 @@ def run(ctx, only_cases=None):
                 terms.append(case_value(1, flags, 10 ** 12, ops, [["ok"], ["ok"], ["ok"]] + o["obs"]))
                 tags.append(("lin", idx))
             continue
-        if c["mode"] in ("torn", "incr"):
+        if c["mode"] in ("torn", "incr", "listrace"):
             continue
         if c["mode"] == "upgrade":
             if o["prop_ok"]:   # the sequential order the harness accepted, replayed through the Spec
@@ -916,7 +932,7 @@ def run(ctx, only_cases=None):
 
     # ---- coverage ----
     def nontrivial(c, o):
-        if c["mode"] in ("conc", "sweep", "upgrade", "torn", "incr"):
+        if c["mode"] in ("conc", "sweep", "upgrade", "torn", "incr", "listrace"):
             return o.get("overlap", 0) > 0
         kinds = {x["op"] for x in c["ops"]}
         answers = {json.dumps(x[:1]) for x in o["obs"]}
@@ -968,6 +984,7 @@ def run(ctx, only_cases=None):
             "cleanup_sweep_cases": sum(1 for c in conc if c["mode"] == "sweep"),
             "cleanup_sweep_cases_write_issued_while_sweep_held_the_mutex": sum(1 for c, o in zip(conc, couts) if c["mode"] == "sweep" and o.get("overlap")),
             "concurrent_increments_of_one_existing_counter": {c["backend"]: o["obs"][0][1] for c, o in zip(conc, couts) if c["mode"] == "incr" and o.get("obs")},
+            "remove_vs_append_races_on_one_list": {c["backend"]: o["obs"][0][2] for c, o in zip(conc, couts) if c["mode"] == "listrace" and o.get("obs")},
             "large_value_reader_vs_in_place_writer_cases": sum(1 for c in conc if c["mode"] == "torn"),
             "large_value_snapshots_checked_against_the_writers_invariant": sum(o["obs"][0][1] for c, o in zip(conc, couts) if c["mode"] == "torn" and o.get("obs")),
             "reader_upgrade_vs_writer_cases": sum(1 for c in conc if c["mode"] == "upgrade"),
